@@ -618,6 +618,8 @@ class ManifestContext:
                     pos = int(pos, 10)
                 except ValueError:
                     pos = from_isodatetime(pos)
+            if isinstance(pos, datetime.timedelta):
+                raise ValueError('a position must be a number or a time')
             if isinstance(pos, int):
                 drop_seg = pos
             elif availabilityStartTime is None:
